@@ -448,6 +448,11 @@ def b_bytes(I, args, kw):
     v = I.force(args[0])
     if v.tag == "str":
         return VStr(v.t, True)
+    if v.tag == "list" and isinstance(I.container(v.ref), LConc):
+        parts = [z3.StrFromCode(I.force(x).t) for x in I.container(v.ref).items]
+        if not parts:
+            return VStr(b"")
+        return VStr(z3.Concat(*parts) if len(parts) > 1 else parts[0], True)
     raise Unsupported("bytes(%r)" % v)
 
 
